@@ -76,6 +76,15 @@ type TypeCheck struct {
 }
 type DefaultOf struct{ T *Type }
 
+// RawLit: a literal in a given spelling (C19): prints Raw verbatim, denotes V
+type RawLit struct {
+	Raw string
+	T   *Type
+	V   Value
+}
+
+func (e *RawLit) Ty() *Type { return e.T }
+
 // Arg: the I-th (0-based) command line argument converted to a Zahl — an input the optimiser cannot see
 type Arg struct{ I int }
 
